@@ -38,6 +38,15 @@ module N =
           | Pos.IsPos p -> Npos p
           | _ -> N0))
 
+  (** val mul : coq_N -> coq_N -> coq_N **)
+
+  let mul n m =
+    match n with
+    | N0 -> N0
+    | Npos p -> (match m with
+                 | N0 -> N0
+                 | Npos q -> Npos (Pos.mul p q))
+
   (** val compare : coq_N -> coq_N -> comparison **)
 
   let compare n m =
@@ -66,6 +75,21 @@ module N =
     match compare x y with
     | Gt -> false
     | _ -> true
+
+  (** val ltb : coq_N -> coq_N -> bool **)
+
+  let ltb x y =
+    match compare x y with
+    | Lt -> true
+    | _ -> false
+
+  (** val pow : coq_N -> coq_N -> coq_N **)
+
+  let pow n = function
+  | N0 -> Npos Coq_xH
+  | Npos p0 -> (match n with
+                | N0 -> N0
+                | Npos q -> Npos (Pos.pow q p0))
 
   (** val pos_div_eucl : positive -> coq_N -> coq_N * coq_N **)
 
@@ -96,10 +120,34 @@ module N =
                   | N0 -> (N0, a)
                   | Npos _ -> pos_div_eucl na b)
 
+  (** val div : coq_N -> coq_N -> coq_N **)
+
+  let div a b =
+    fst (div_eucl a b)
+
   (** val modulo : coq_N -> coq_N -> coq_N **)
 
   let modulo a b =
     snd (div_eucl a b)
+
+  (** val testbit : coq_N -> coq_N -> bool **)
+
+  let testbit a n =
+    match a with
+    | N0 -> false
+    | Npos p -> Pos.testbit p n
+
+  (** val to_nat : coq_N -> nat **)
+
+  let to_nat = function
+  | N0 -> O
+  | Npos p -> Pos.to_nat p
+
+  (** val of_nat : nat -> coq_N **)
+
+  let of_nat = function
+  | O -> N0
+  | S n' -> Npos (Pos.of_succ_nat n')
 
   (** val eq_dec : coq_N -> coq_N -> bool **)
 
